@@ -7,3 +7,4 @@ for P in $(python3 -c "import json; print(' '.join(c['property_id'] for c in jso
   echo "$P exit=$RC $((E-S))s :: $(echo "$OUT" | tail -1)"
   [ $RC -ne 0 ] && echo "$OUT" | grep -E "^(VIOLATION|UNDECIDED|CHECKER|CONTRACT)" | head -5
 done
+exit 0
